@@ -126,8 +126,10 @@ pub enum DirValue {
     Absent,
     /// `={e}`
     Expr(Ex),
-    /// `="str"` (only v-html / v-text accept it)
+    /// `="str"`
     Str(String),
+    /// `=<jsx />` written without braces
+    JsxBare(Box<Node>),
     /// array form `={[v, arg?, [mods]?]}`
     Array {
         value: Ex,
@@ -363,6 +365,7 @@ impl DirValue {
             DirValue::Absent => String::new(),
             DirValue::Expr(e) => format!("={{{}}}", e.jsx()),
             DirValue::Str(s) => format!("={}", render_attr_string(s)),
+            DirValue::JsxBare(n) => format!("={}", n.jsx()),
             DirValue::Array { value, arg, mods } => {
                 let mut parts = vec![value.jsx()];
                 if let Some(a) = arg {
@@ -584,6 +587,7 @@ fn dirvalue_ref_value(v: &DirValue) -> String {
         DirValue::Expr(e) => e.reference(),
         // a string attribute value is white-space-normalised like any other attribute string
         DirValue::Str(s) => js_str(&clean_text(s)),
+        DirValue::JsxBare(n) => n.reference(),
         DirValue::Array { value, .. } => value.reference(),
     }
 }
